@@ -22,6 +22,12 @@ ColumnOk(e, K, T, pr, j) ==
         THEN /\ Chk(LdpcHolds(pr, C), <<"LDPC relation violated", K, e.route, j>>)
              /\ Chk(HdpcHolds(pr, C), <<"HDPC relation violated", K, e.route, j>>)
              /\ Chk(LtHolds(pr, K, C, dcol), <<"LT relation (source/padding) violated", K, e.route, j>>)
+        ELSE IF e.mode = "light"      \* as cert, but the LT relations are checked on a spread of ~60 ISIs only
+        THEN /\ Chk(LdpcHolds(pr, C), <<"LDPC relation violated", K, e.route, j>>)
+             /\ Chk(HdpcHolds(pr, C), <<"HDPC relation violated", K, e.route, j>>)
+             /\ LET stride == 1 + (pr.Kp \div 53) IN
+                \A i \in {0, 1, K - 1, pr.Kp - 1} \cup {q \in 0..(pr.Kp - 1) : q % stride = 3 % stride} :
+                   Chk(EncSym(pr, C, i) = (IF i < K THEN dcol[i+1] ELSE 0), <<"LT relation (source/padding) violated", K, e.route, j, "isi", i>>)
         ELSE \A i \in 0..(K-1) : Chk(EncSym(pr, C, i) = dcol[i+1], <<"spec self-check: Enc(source ISI)", K, i>>)
      /\ \A n \in 1..Len(e.rep) :
           LET r == e.rep[n] IN
@@ -44,7 +50,7 @@ BlockOk(e) ==
 \* C06 "routes agree": all encoders for the same (K, T, data) hold identical intermediate symbols
 RoutesAgree(e) ==
   LET key == <<e.k, e.t>> IN
-  e.mode = "cert" /\ key \in DOMAIN v_cmap =>
+  e.mode \in {"cert", "light"} /\ key \in DOMAIN v_cmap =>
       Chk(v_cmap[key] = e.c, <<"intermediate symbols differ between routes", e.k, e.route>>)
 
 Init == v_pos = 1 /\ v_cmap = <<>> /\ v_blocks = 0
@@ -54,7 +60,7 @@ Step ==
      \/ e.ev = "meta" /\ UNCHANGED <<v_cmap, v_blocks>>
      \/ /\ e.ev = "block" /\ (BlockOk(e) /\ RoutesAgree(e)) = TRUE   \* "= TRUE": evaluate as a predicate (LET caching), not as an action
         /\ v_blocks' = v_blocks + 1
-        /\ v_cmap' = IF e.mode = "cert" /\ <<e.k, e.t>> \notin DOMAIN v_cmap
+        /\ v_cmap' = IF e.mode \in {"cert", "light"} /\ <<e.k, e.t>> \notin DOMAIN v_cmap
                      THEN v_cmap @@ (<<e.k, e.t>> :> e.c) ELSE v_cmap
      \/ e.ev = "end" /\ UNCHANGED <<v_cmap, v_blocks>>
   /\ v_pos' = v_pos + 1
